@@ -579,7 +579,9 @@ pub mod inner {
             T: Clone,
         {
             if self.is_contiguous() {
-                self.data.fill(val);
+                // The data may extend past the last row
+                let (w, h) = self.dims;
+                self.data[..(w * h) as usize].fill(val);
             } else {
                 self.rows_mut()
                     .for_each(|row| row.fill(val.clone()));
